@@ -34,8 +34,46 @@ def families(tier, seed):
     return out
 
 
+def indexed_var_native(chk):
+    """_get_indexed_var_str's contract evaluated natively on the real function: every index list of length 1..4 over {0..3} and a
+    few longer ones (identity, permutations that keep the end points, shifted, repeated) x var_length 1..5."""
+    import itertools
+    from pyvc import native
+    from contracts import c06 as K
+    c = K.CONTRACTS[0]
+    fn, _ = native.real_function(c["target"])
+    lists = [list(p) for n in range(1, 5) for p in itertools.product(range(4), repeat=n)]
+    lists += [list(range(12)), [0, 7, 3, 9, 1, 5, 10, 2, 8, 4, 6, 11], [0, 2, 1, 3, 4, 5], list(range(1, 7)), [0, 1, 2, 3, 4, 4], [5, 4, 3, 2, 1, 0]]
+    fails, n = [], 0
+    for idx in lists:
+        for vl in sorted({len(idx), len(idx) + 1, max(1, len(idx) - 1)}):
+            n += 1
+            status, fl = native.check_call(c, {}, dict(var="v", idx=list(idx), var_length=vl, reduce=False, idx_str="v_idx", arg_dict={}), fn=fn)
+            if status == "violated":
+                fails.append(dict(site="C06/_get_indexed_var_str", clauses=fl[:2], input=dict(idx=idx, var_length=vl), features=dict(idx=idx),
+                                  rerun=dict(kind="contract", module="contracts.c06", contract=c["name"],
+                                             model=dict(var="v", idx=list(idx), var_length=vl, reduce=False, idx_str="v_idx", arg_dict={}))))
+                if len(fails) > 3:
+                    break
+    chk.add_bounded("native-_get_indexed_var_str", n, len(lists),
+                    "every index list of length 1..4 over {0..3} plus identity / end-point-preserving permutations / shifted / repeated "
+                    "lists of length 6 and 12, var_length = len and len +- 1: un-indexed iff the list is the identity selection; distinct = lists",
+                    [dict(idx=[0, 2, 1, 3], var_length=4)])
+    return fails
+
+
 def main():
-    chk = Check("C06", "exploration")
+    chk = Check("C06", "other")
+    # deductive core: whether a vectorised edge variable is used un-indexed (identity selection) or indexed
+    cache = {}
+
+    def fb():
+        if "r" not in cache:
+            cache["r"] = indexed_var_native(chk)
+        return cache["r"]
+    chk.run_contracts("contracts.c06", fallback={"*": fb})
+    for f in fb():
+        chk.report_failure(f)
     driver.run_family(
         chk, "run-outputs-vs-per-variable-spec", families(chk.tier, chk.seed), cases.case_fn, site="C06/run-outputs",
         rule="circuits whose nodes all differ in a parameter: two node types interleaved in 5 declaration orders, a 3-node loop "
@@ -45,7 +83,9 @@ def main():
              "(and which variable a wrong column really carries); distinct = (model, request, vectorize)",
         sample_of=cases.sample_of)
     rc = chk.finish(
-        explanation="Bounded: the DataFrame returned by run() is compared column by column with the per-variable reference trajectories.",
+        explanation="Deductive (small core): _get_indexed_var_str uses a vectorised edge variable un-indexed exactly when the index list is the "
+                    "identity selection 0..var_length-1 (loop with break, all lengths). Bounded: the DataFrame returned by run() is compared "
+                    "column by column with the per-variable reference trajectories.",
         assumptions=["spec_fixed_step (harness)", "column labels as documented: key, (key, nodes..., 'op/var') for wildcards, path for list form"])
     sys.exit(rc)
 
